@@ -46,7 +46,8 @@ Bump(c, cls) == [x \in DOMAIN c \cup {cls} |-> IF x = cls THEN (IF x \in DOMAIN 
 \*  - when a deadline / cancellation was imposed, an error naming it and a partial (but sound)
 \*    list are legitimate outcomes.
 StopErrs == {"BAD_ERR", "BAD_V2_ERR", "BAD_LO_ERR", "BAD_LU_ERR", "BAD_EXPAND_ERR", "BAD_BATCH_ERR"}
-Partials == {"BAD_LO_INCOMPLETE", "BAD_LO_INCOMPLETE_E", "BAD_LU_INCOMPLETE", "BAD_LU_INCOMPLETE_E", "BAD_LO_LIMIT"}
+Partials == {"BAD_LO_INCOMPLETE", "BAD_LO_INCOMPLETE_E", "BAD_LU_INCOMPLETE", "BAD_LU_INCOMPLETE_E", "BAD_LO_LIMIT",
+             "KF_LUWildcardExclusionNestedOmission"}   \* an omission is an omission, whatever else could explain it
 ResClass(cls) ==
   IF "res" \notin DOMAIN Ev1 THEN cls
   ELSE LET rs == Ev1.res
